@@ -383,7 +383,7 @@ void ref_classify(const unsigned char *b, size_t n, int nesting_limit, ref_resul
                     {
                         scap = scap ? scap * 2 : 1024;
                         stack = (unsigned char *)probe_realloc(stack, scap);
-                        if (stack == NULL) abort();
+                        if (stack == NULL) harness_die("dialect: out of memory");
                     }
                     stack[sp++] = c;
                     if ((int)sp > maxdepth) maxdepth = (int)sp;
